@@ -7,7 +7,7 @@ PROPS_VO = ['Props/C01.vo', 'Props/Patterns_props.vo', 'Props/C01_lowerbool.vo',
 GEN_ITEMS = ['coq/Gen/GenTables.v', 'coq/Gen/GenStdlib.v', 'coq/Gen/GenLayout.v']
 LEVEL = 'proof'
 TRUSTED = ['PARTIAL: proved = Turing-jump metatheory + verified VM + idiom lemmas (goto/branch/guard/return) + operator tables + library routines on regenerated text + '
-           'program_lowering_correct (C01 restricted to the fragment): for whole programs of int/empty functions with int parameters (recursion included), A-normal calls and checked divisions, write(int/bool) through the proved runtime library, from ANY initial image laid out as gen_lines does: the machine never halts and its committed events are exactly the source semantics\' output followed by win (or the output prefix followed by division_by_zero/stack_overflow, error); stmts_lowering_correct: COMPILER CORRECTNESS for the statement fragment F_stmt (int/bool locals, arithmetic + - * and unary, comparisons, and/or/not, if/else, while/for with break/continue, nested blocks, write(byte), writeln()) - for every program of the fragment and every w >= 2 the emitted code (model tied textually to hidc, labels included) runs with exactly the output bytes of an independent big-step source semantics and ends representing the final store; '
+           'program_lowering_correct (C01 restricted to the fragment): for whole programs of int/empty functions with int parameters (recursion included), A-normal calls and checked divisions, int and bool globals (in-place assignment, shadowing, layout proved by glob_addr_layout), write(int/bool) through the proved runtime library, from ANY initial image laid out as gen_lines does: the machine never halts and its committed events are exactly the source semantics\' output followed by win (or the output prefix followed by division_by_zero/stack_overflow, error); stmts_lowering_correct: COMPILER CORRECTNESS for the statement fragment F_stmt (int/bool locals, arithmetic + - * and unary, comparisons, and/or/not, if/else, while/for with break/continue, nested blocks, write(byte), writeln()) - for every program of the fragment and every w >= 2 the emitted code (model tied textually to hidc, labels included) runs with exactly the output bytes of an independent big-step source semantics and ends representing the final store; '
            'branch_lowering_correct: for EVERY boolean expression tree over comparisons of literals/locals, bool locals, not/and/or, the lowering model (tied textually to hidc, labels included) branches to the right continuation, short-circuits left to right and changes only r0/r1; '
            'the whole-generator simulation (C01_full_statement) is not proved: programs are covered by the differential sweep',
            'tools/hidref.py reference semantics (specification, written from README + property text; consumes the checked tree of hidc\'s own front end)',
